@@ -260,6 +260,12 @@ def run_check(check: Check, tier: str, seed: int, replay: str | None = None) -> 
         # child of the optimised-interpreter pass (python -O): a stride of the cases, raw results to the parent
         stride = max(1, int(os.environ.get("YAWVERIF_OPTSTRIDE", "4")))
         all_cases = all_cases[::stride]
+    if not getattr(check, "exhaustive", False):
+        # a budget overrun drops the cases that were not reached: order them by a fixed pseudo-random permutation so
+        # that an overrun thins out every stratum alike instead of losing the strata that happen to be generated last
+        import random
+
+        random.Random(20240131).shuffle(all_cases)
     results = []
     with Scratch(f"{check.id}-res") as tmp:
         if nshards <= 1:
